@@ -585,9 +585,10 @@ class Hist(Scenario):
             return "no-conflict"
         self.resolve_conflicts(how=rng.choice(["ours", "theirs"]))
         self.g("commit", "-q", "--no-edit")
-        if self.in_progress():
+        seq_dir = os.path.join(self.gitdir(), "sequencer")
+        if self.in_progress() or os.path.isdir(seq_dir):
             self.g("-c", "core.editor=true", "cherry-pick", "--continue")
-        if self.in_progress():
+        if self.in_progress() or os.path.isdir(seq_dir):
             self.g("cherry-pick", "--abort")
             self.inconclusive = "could not finish the cherry-pick sequence"
         return "done"
